@@ -461,7 +461,16 @@ def c13_routine_guards : Bool := true
 def c13_setBlock_guard : String := "bpr.block != nil || bpr.peerID != peerID"
 
 /-- has blockchain/v0/reactor.go BlockchainReactor.poolRoutine -/
+def c13_v0_applies_verified_block : Bool := true
+
+/-- has blockchain/v0/reactor.go BlockchainReactor.poolRoutine -/
+def c13_v0_pop_returns_nothing : Bool := true
+
+/-- has blockchain/v0/reactor.go BlockchainReactor.poolRoutine -/
 def c13_v0_save_seen : Bool := true
+
+/-- has blockchain/v0/reactor.go BlockchainReactor.poolRoutine -/
+def c13_v0_saves_verified_block : Bool := true
 
 /-- order blockchain/v0/reactor.go BlockchainReactor.poolRoutine -/
 def c13_v0_step_order : List String := ["StopPeerForError", "PeekTwoBlocks", "VerifyCommitLight", "ValidateBlock", "RedoRequest", "PopRequest", "SaveBlock", "ApplyBlock"]
@@ -649,6 +658,9 @@ def c16_write_order : List String := ["Seal", "incrNonce", "Write"]
 /-- order consensus/state.go State.finalizeCommit -/
 def c18_finalizeCommit_order : List String := ["ValidateBlock", "SaveBlock", "ApplyBlock", "pruneBlocks"]
 
+/-- has state/execution.go updateState -/
+def c18_params_change_height_unconditional : Bool := false
+
 /-- order consensus/state.go State.pruneBlocks -/
 def c18_pruneBlocks_glue_order : List String := ["PruneBlocks", "PruneStates"]
 
@@ -744,6 +756,9 @@ def c20_defaultPerPage : Int := 30
 
 /-- has state/store.go ABCIResponsesResultsHash -/
 def c20_header_results_root : Bool := true
+
+/-- has crypto/merkle/proof_key_path.go KeyPathToKeys -/
+def c20_keypath_pathunescape : Bool := true
 
 /-- const light/rpc/client.go maxPerPage -/
 def c20_maxPerPage : Int := 100
@@ -997,6 +1012,6 @@ def types_MaxBlockPartsCount : Int := 1601
 /-- const types/vote_set.go MaxVotesCount -/
 def types_MaxVotesCount : Int := 10000
 
-def factCount : Nat := 332
+def factCount : Nat := 337
 
 end Tmv.Facts
